@@ -15,7 +15,7 @@ def run(file, old, new, check_args, count=1, repo='/repo'):
         open(p, 'w').write(s.replace(old, new))
         import py_compile
         py_compile.compile(p, doraise=True, cfile=os.path.join(d, 'x.pyc'))
-        env = dict(os.environ, SA_REPO_ROOT=d)
+        env = dict(os.environ, SA_REPO_ROOT=d, SA_EVIDENCE_DIR=os.path.join(d, 'evidence'))
         here = os.path.dirname(os.path.dirname(os.path.abspath(__file__)))
         r = subprocess.run([os.path.join(here, 'check')] + check_args, env=env, capture_output=True, text=True)
         return r.returncode, r.stdout + r.stderr
